@@ -118,6 +118,22 @@ def run_task_uncached(task):
                 "paths": 0, "error": traceback.format_exc()}
 
 
+def run_fuzz_task(task):
+    """worker: native differential check (pyvc/fuzz.py) of one (contract, config); bounded, never counted as proved"""
+    target, cfgname, seed, budget_s, max_samples = task
+    try:
+        pc = load_contracts()
+        from pyvc import fuzz
+        c = pc.REGISTRY.contracts[target]
+        cfg = next(cf for cf in pc.config_list(c) if pc.cfg_name(cf) == cfgname)
+        r = fuzz.fuzz_config(c, cfg, seed, budget_s, max_samples)
+        r.update(target=target, config=cfgname, cfg=cfg)
+        return r
+    except Exception:
+        return {"target": target, "config": cfgname, "samples": 0, "rejected": 0, "failures": [],
+                "errors": [traceback.format_exc()[-500:]]}
+
+
 def tasks_for(pc, prop, overrides=None, targets=None):
     out = []
     for t in pc.REGISTRY.order:
@@ -247,14 +263,63 @@ def check_property(prop, tier, jobs, seed, t0):
                 else:
                     b_viol.append(v)
 
+    # native differential check of every contract against its spec (bounded; cross-check of the engine with CPython,
+    # and the stand-in when a function has left the engine's subset)
+    fz_budget, fz_max = (0.6, 120) if tier == "quick" else (6.0, 3000)
+    ftasks = [(t, cn, seed, fz_budget, fz_max) for (t, cn, _) in tasks]
+    fz_results = []
+    if ftasks:
+        with multiprocessing.Pool(min(jobs, len(ftasks))) as pool:
+            fz_results = pool.map(run_fuzz_task, ftasks, chunksize=1)
+    fz_fail = [(r, f) for r in fz_results for f in r["failures"]]
+    fz_report = {"name": "native_differential", "kind": "bounded",
+                 "bound": "random inputs drawn through each contract's own input builder (dyadic times k/4 and k/8 in "
+                          "[-1, 10], lists of 0..5 entries, 9 label strings), rejected unless the contract's "
+                          "preconditions hold; real function and spec function run by CPython and compared exactly; "
+                          "%s s or %d accepted samples per (function, configuration)" % (fz_budget, fz_max),
+                 "cases": sum(r["samples"] for r in fz_results), "rejected": sum(r["rejected"] for r in fz_results),
+                 "configurations": len(fz_results),
+                 "configurations_without_sample": [r["target"].split(".")[-1] + "[" + r["config"] + "]"
+                                                   for r in fz_results if r["samples"] == 0][:20],
+                 "harness_errors": [e for r in fz_results for e in r["errors"]][:5],
+                 "failures": len(fz_fail)}
+    if fz_results:
+        bounded.append(fz_report)
+
     # replay of counterexamples on the real code
     from pyvc import replay
     vio_lines = []
+    fz_by_cfg = {}
+    for r, f in fz_fail:
+        fz_by_cfg.setdefault((r["target"], r["config"]), []).append((r, f))
     for o in violations:
         path = os.path.join(OUT, "replay", "%s-%s.json" % (prop, safe(o["name"])))
         rep = replay.make_replay(prop, o, path)
+        if not rep["reproduced"]:
+            # the solver's model does not replay (abstraction of strings / repr): a failing input of the same
+            # function and configuration found by the native differential check stands in
+            alt = fz_by_cfg.get((o["function"], pc.cfg_name(o["config"])))
+            if alt:
+                r, f = alt[0]
+                rep["failing_input_from_native_differential"] = {"seed": f["seed"], "kind": f["kind"],
+                                                                 "native": f["native"]}
+                rep["reproduced"] = True
+                json.dump(rep, open(path, "w"), indent=1, default=str)
         suffix = "" if rep["reproduced"] else " no-failing-input-found"
         vio_lines.append("VIOLATION property=%s replay=%s obligation=%s%s" % (prop, path, o["name"], suffix))
+    seen_fz = set()
+    for r, f in fz_fail:
+        key = (r["target"], r["config"], f["kind"], f["detail"][:60])
+        if key in seen_fz:
+            continue
+        seen_fz.add(key)
+        what = "native-differential %s[%s] %s: %s" % (r["target"].split(".")[-2] + "." + r["target"].split(".")[-1],
+                                                     r["config"], f["kind"], f["detail"][:60])
+        path = os.path.join(OUT, "replay", "%s-fuzz-%s.json" % (prop, safe(what)[:90]))
+        json.dump({"property": prop, "kind": "fuzz", "function": r["target"], "config": r["cfg"], "seed": f["seed"],
+                   "obkind": f["kind"], "detail": f["detail"], "native": f["native"], "what": what},
+                  open(path, "w"), indent=1, default=str)
+        vio_lines.append("VIOLATION property=%s replay=%s bounded=%s" % (prop, path, what[:160]))
     for v in b_viol:
         path = os.path.join(OUT, "replay", "%s-bounded-%s.json" % (prop, safe(v["what"])[:80]))
         json.dump({"property": prop, "kind": "bounded", **v}, open(path, "w"), indent=1, default=str)
@@ -291,7 +356,7 @@ def check_property(prop, tier, jobs, seed, t0):
         },
         "assumptions": TRUSTED_BASE + plan.get("trusted_extra", []),
         "wall_s": round(time.time() - t0, 2),
-        "violations": len(violations) + len(b_viol),
+        "violations": len(violations) + len(b_viol) + len(fz_fail),
     }
     evdir = os.environ.get("VERIF_EVIDENCE_DIR") or os.path.join(ROOT, "evidence")
     os.makedirs(evdir, exist_ok=True)
@@ -303,6 +368,14 @@ def check_property(prop, tier, jobs, seed, t0):
     print("%s: %d obligations, %d discharged, %d known-finding, %d failed, %d undecided; %d bounded checks; %.1fs"
           % (prop, len(obligations), n_dis, sum(len(v) for v in kf_hits.values()), len(violations), len(undecided),
              len(bounded), time.time() - t0))
+    if vio_lines:
+        # a violation is reported even if some other obligation made the checker fail (e.g. a change that takes a
+        # function outside the engine's subset): the failing inputs stand on their own
+        for e in errors:
+            print("CHECKER-ERROR %s[%s]\n%s" % (e["target"], e["config"], e["error"][-600:]))
+        for l in vio_lines:
+            print(l)
+        return 1
     if errors:
         for e in errors:
             print("CHECKER-ERROR %s[%s]\n%s" % (e["target"], e["config"], e["error"]))
@@ -311,10 +384,6 @@ def check_property(prop, tier, jobs, seed, t0):
         for c in canary_fail:
             print("CHECKER-ERROR canary survived: %s" % c)
         return 3
-    if vio_lines:
-        for l in vio_lines:
-            print(l)
-        return 1
     if undecided:
         for o in undecided:
             print("UNDECIDED obligation=%s reason=%s" % (o["name"], o["detail"][:200]))
